@@ -3,8 +3,9 @@
 (* spelling) pair: the whole file tree as a set of nodes (the harness builds *)
 (* it), the spelling, and the abstract class of the pair.  Layouts: the      *)
 (* one-link core family MustL plus KL pseudo-random ones (all when KL is     *)
-(* large enough); per layout the classic spellings MustS plus KS random      *)
-(* ones over the names that exist in that layout (TLC -seed = VERIF_SEED).   *)
+(* large enough); per layout the classic spellings MustS plus KS random ones *)
+(* of every length up to MaxLen over the names that exist in that layout     *)
+(* (TLC -seed = VERIF_SEED).                                                 *)
 EXTENDS SandboxPath, Json, Randomization
 
 CONSTANTS KL, KS, MaxLen
@@ -20,8 +21,11 @@ MustS == { Sp(FALSE, <<"l">>), Sp(FALSE, <<"l", "s">>), Sp(FALSE, <<"l", "n">>),
            Sp(TRUE, <<"a", "w", "root", "l">>), Sp(TRUE, <<"a", "w", "root", "l", "s">>), Sp(TRUE, <<"a", "w", "root", "l", "n">>),
            Sp(TRUE, <<"a", "w", "root", "..", "out", "s">>), Sp(TRUE, <<"", "a", "w", "out", "", "s">>), Sp(TRUE, <<"f">>),
            Sp(FALSE, <<"f">>), Sp(FALSE, <<"n">>), Sp(FALSE, <<"d", "g">>), Sp(FALSE, <<".">>) }
-PickS(fs) == LET S == Spellings(Names(fs), MaxLen) IN
-             MustS \cup (IF KS >= Cardinality(S) THEN S ELSE RandomSubset(KS, S))
+(* KS random (prefix, tail) pairs for every tail length 1..MaxLen (drawn from the record/function *)
+(* sets directly, which TLC samples without enumerating them)                                   *)
+PickS(fs) == LET T == Names(fs)
+                 RS == UNION {RandomSubset(KS, [p : Prefixes, t : [1..j -> T]]) : j \in 1..MaxLen}
+             IN MustS \cup {s \in {Sp(x.p.abs, x.p.c \o x.t) : x \in RS} : WFsp(s)}
 
 Nodes(fs) == {[p |-> p, k |-> fs[p].k, ta |-> fs[p].t.abs, tc |-> fs[p].t.c] : p \in DOMAIN fs}
 
